@@ -213,9 +213,9 @@ PROPS = {
             "modules": DEFAULT_MODULES + ["RProofs.ContQuery", "RProofs.RepQuery"], "owns": {"nv", "pv", "nav", "pav", "kern", "l2q"}},
     "C16": {"suites": [("xform", 1.0), ("dense", 1.0), ("zc_dense", 0.5), ("l2xform", 1.0)], "theorems": L1_XFORM + L2_XFORM,
             "modules": DEFAULT_MODULES + ["RProofs.RepXform"],
-            # in the `xform` suite the only mutations are edits of the RESULT of a static Flip / AddOffset (the operand is re-observed with
+            # in the `xform` suite the only mutations are edits (removals, insertions, unions) of the RESULT of a static Flip / AddOffset (the operand is re-observed with
             # `dig`): a result that does not behave like a bitmap of its own under those edits is this property's
-            "owns_fn": lambda op, mm, suite: op in C16_OWNS or (suite.split(":")[-1] == "xform" and op in {"rem", "remr", "crem", "card", "has", "wf"})},
+            "owns_fn": lambda op, mm, suite: op in C16_OWNS or (suite.split(":")[-1] == "xform" and op in {"rem", "remr", "crem", "card", "has", "wf", "add", "addr", "addmany", "ior", "toarr"})},
     "C17": {"suites": [("r64", 1.0), ("l2r64", 0.6), ("l2iter2", 0.3), ("l2r64q", 0.6)], "theorems": L1_ALGEBRA + L1_MUT[:5] + L1_QUERY[:9] + L1_NBR[:4] +
             ["RModel.Facts.r64Highbits_spec", "RModel.Facts.r64Lowbits_spec"] + L2_R64 + ["RModel.Impl.Rep64.toBSetFast_eq'"] + L2_R64Q,
             "modules": DEFAULT_MODULES + ["RProofs.Facts.Bits", FASTEQ_MOD, "RProofs.Rep64", "RProofs.Rep64Range", "RProofs.Rep64InPlace", "RProofs.Rep64Witness",
